@@ -304,7 +304,7 @@ func init() {
 						submit(func(w *world.World) {
 							dry := c06Run(rep, w, c)
 							for _, call := range dry.Calls {
-								if call.Resource != "persistentvolumeclaims" || call.Verb != "create" {
+								if call.Verb != "create" || (call.Resource != "persistentvolumeclaims" && call.Resource != "pods") {
 									continue
 								}
 								for _, kind := range []string{world.FErr500, world.FExists, world.FTimeout} {
@@ -335,7 +335,7 @@ func init() {
 		}
 		close(ch)
 		wg.Wait()
-		rep.Rule = "the real pod control on the API model: set names {web, web-1, a, x-0-y} x claim-template lists {none, 1, 2, 3 templates, own labels, a template named like a volume of the pod template, extra template volumes} x policy {Parallel: 3 pods created in one reconcile; OrderedReady: the last of 3} x claim presence per (ordinal, template) in {absent, in the API only (stale cache), in API and cache} (full product up to 6 claims, thorough 9; beyond that all single deviations from all-absent and all-present) x a single fault (InternalError, AlreadyExists, lost response) on every claim create and a lookup failure on every claim; plus scale-in at each ordinal followed by scale-out under both policies. Oracle on every created pod: name, namespace, hostname, subdomain, pod-name label, revision label naming a stored revision with the pod's template, controller owner reference, one volume per claim template bound to T-S-i, template volumes kept, every claim exists before the pod create, created claims carry the selector labels, a failed claim create/lookup prevents the pod create; no update/patch/delete on claims; claims keep their identity across scale-in/out. Non-trivial = at least one write."
+		rep.Rule = "the real pod control on the API model: set names {web, web-1, a, x-0-y} x claim-template lists {none, 1, 2, 3 templates, own labels, a template named like a volume of the pod template, extra template volumes} x policy {Parallel: 3 pods created in one reconcile; OrderedReady: the last of 3} x claim presence per (ordinal, template) in {absent, in the API only (stale cache), in API and cache} (full product up to 6 claims, thorough 9; beyond that all single deviations from all-absent and all-present) x a single fault (InternalError, AlreadyExists, lost response) on every claim create and every pod create, and a lookup failure on every claim; plus scale-in at each ordinal followed by scale-out under both policies. Oracle on every created pod: name, namespace, hostname, subdomain, pod-name label, revision label naming a stored revision with the pod's template, controller owner reference, one volume per claim template bound to T-S-i, template volumes kept, every claim exists before the pod create, created claims carry the selector labels, a failed claim create/lookup prevents the pod create; no update/patch/delete on claims; claims keep their identity across scale-in/out. Non-trivial = at least one write."
 		rep.Validated = rep.States
 		return rep.Finish()
 	})
